@@ -22,7 +22,23 @@ def sh(cmd, cwd=None, timeout=1800):
     return p.returncode, (p.stdout + p.stderr)
 
 
+def recheck(sid):
+    """Re-run the checks recorded for a kept seeded change (no scratch worktree needed)."""
+    dst = os.path.join(VERIF, "seeded", sid)
+    meta = json.load(open(os.path.join(dst, "meta.json")))
+    checks = [c.lower() for c in meta["checks"]]
+    meta["checks"] = {}
+    run_checks(sid, dst, checks, meta)
+    with open(os.path.join(dst, "meta.json"), "w") as f:
+        json.dump(meta, f, indent=1)
+
+
 def main():
+    if sys.argv[1] == "--recheck":
+        for sid in sys.argv[2:] or sorted(os.listdir(os.path.join(VERIF, "seeded"))):
+            if os.path.isfile(os.path.join(VERIF, "seeded", sid, "meta.json")):
+                recheck(sid)
+        return
     sid, wt, prop = sys.argv[1:4]
     checks = [prop.lower()] + [c for c in sys.argv[4:] if c.lower() != prop.lower()]
     dst = os.path.join(VERIF, "seeded", sid)
@@ -51,6 +67,13 @@ def main():
           "468 passed" in meta["confirmed"]["suite_with_patch"] and
           "25 errors" in meta["confirmed"]["suite_with_patch"])
     meta["confirmed"]["all_claims_hold"] = ok
+    run_checks(sid, dst, checks, meta)
+    with open(os.path.join(dst, "meta.json"), "w") as f:
+        json.dump(meta, f, indent=1)
+    print("claims hold: %s  -> %s" % (ok, os.path.join(dst, "meta.json")))
+
+
+def run_checks(sid, dst, checks, meta):
     # ---- run the checks against /repo with the patch applied
     rc, out = sh("git -C /repo status --porcelain")
     if out.strip():
@@ -77,9 +100,6 @@ def main():
                 print("    " + s[:200])
     finally:
         sh("git -C /repo checkout -- .")
-    with open(os.path.join(dst, "meta.json"), "w") as f:
-        json.dump(meta, f, indent=1)
-    print("claims hold: %s  -> %s" % (ok, os.path.join(dst, "meta.json")))
 
 
 if __name__ == "__main__":
